@@ -31,6 +31,17 @@ fn slice(tier: Tier) -> Vec<(String, PProblem)> {
         let step = (candidates.len() / per.max(1)).max(1);
         out.extend(candidates.into_iter().step_by(step).take(per).map(|p| (name.to_string(), p)));
     }
+    // recharge stations and time-dependent matrices (the oracle replays them fully)
+    let n = match tier {
+        Tier::Quick => 3,
+        _ => 12,
+    };
+    let rc = family_recharge();
+    let step = (rc.len() / n).max(1);
+    out.extend(rc.into_iter().step_by(step).take(n).map(|p| ("recharge".to_string(), p)));
+    let td = family_timedep();
+    let step = (td.len() / n).max(1);
+    out.extend(td.into_iter().step_by(step).take(n).map(|p| ("timedep".to_string(), p)));
     out
 }
 
